@@ -13,6 +13,10 @@ CHECKS = {
   text="Lean 4 models of both date-time parsers (toml_edit parser/datetime.rs with winnow backtrack/cut semantics; toml_datetime FromStr) and of Display; theorems in Props/C12.lean (range enforcement, agreement of the two parsers on every byte string, print/parse round trip for every in-range value, truncation of the fraction); range bounds, digit counts, month-length arms, SCALE, offset range and format strings are regenerated from /repo and re-proved each run; differential run of the compiled models against both real parsers and the printer on exhaustive field-edge strings, all single-edit mutations of seed date-times over the date-time alphabet, random multi-edit mutations and in-range values, plus three direct oracles on the implementation (standalone = document parser; both = an independent regex+range reference of the grammar; parse(print(x)) = x).",
   note="Trusted: Lean kernel, translate.py, differential correspondence (sampling), std integer formatting ({:02}/{:04}/{:09}) modelled as zero padding. Non-ASCII input is modelled on bytes (both parsers reject it).",
   technique="Lean 4 proof (two-model agreement, round trip) + table re-proof + differential correspondence", design="7/C12"),
+ "C11": dict(
+  text="Lean 4 model of parser/numbers.rs (dec/hex/oct/bin integers with underscores and range check, float lexing, special floats, overflow rejection) and of the toml_write number writers; Spec/Ieee.lean is an exact-rational round-to-nearest-even decimal->binary64 conversion used as the meaning of a float literal. Theorems (Props/C11.lean): every integer returned is within i64 in any base, an overflowing literal of either sign is a committed failure, no parsed float is infinite, integer print/parse round trip. Ties: digit classes/prefixes/keywords, the float overflow predicate, radix arms and the f64/f32 writer arms are regenerated from /repo and re-proved each run; differential run against the real crates on i64 boundaries and random bit patterns, range-edge literals in four bases with signs/underscores/leading zeros, float overflow/underflow/halfway literals with both signs, f64 and f32 bit patterns (std's Display text is an input validated per case), every serde integer width at its edges; direct oracles: exact big-integer reference for integer literals, correctly rounded reference for float literals, print/parse bit-for-bit.",
+  note="Trusted: Lean kernel, translate.py, sampling correspondence, Rust std Display for integers and floats (validated per case against Spec.Ieee), str::parse::<f64> assumed correctly rounded (cross-checked on every literal), serde's primitive visitors.",
+  technique="Lean 4 proof (range/overflow/round-trip) + table re-proof + differential correspondence", design="7/C11"),
 }
 
 NA = {}
